@@ -9,6 +9,18 @@ little HTTP/1.x response parser; 200 bodies go through the shared CIM-XML
 oracle (``xmlserver.validate_cimxml``, the C03 oracle).  After every request a
 valid indication with a fresh marker is sent and must be answered with a
 success response and be delivered to the callback exactly once.
+
+Request-derived text comes back in the CIMErrorDetails header (rejected
+header values, unsupported version values, parser messages) and in the
+response body (message id, method and parameter names).  Control characters
+only arrive there in the forms the transport lets through: character
+references in XML (a literal CR/LF/TAB in an attribute value is normalized to
+a blank by the XML parser; pywbem's _cim_xml writes them literally) and folded
+header values (line break + blank/TAB; Python's header parser takes CR LF, a
+bare LF and a bare CR as line breaks).  The generator produces both with
+sequences of control characters (bare CR, bare LF, CR LF, LF CR, TAB, NUL, VT,
+FF, ESC, FS, US, DEL, NEL); the response parser splits the header section on
+CR LF only and reports any CR/LF/other control character left in a line.
 """
 
 import io
@@ -43,7 +55,13 @@ RULE = (
     "trailing garbage, arbitrary bytes), unsupported/garbled CIMVERSION/"
     "DTDVERSION/PROTOCOLVERSION, unknown export method, missing/duplicate/"
     "extra/renamed/empty/non-instance EXPPARAMVALUE, odd MESSAGE ID, "
-    "MULTIEXPREQ, XML declaration variants.  HTTP level: method tokens POST, "
+    "MULTIEXPREQ, XML declaration variants; control-character sequences "
+    "(1..3 of bare CR, bare LF, CR LF, LF CR, TAB, NUL, SOH, BS, VT, FF, ESC, "
+    "FS, US, DEL, NEL, blank) sent as character references + a recognizable "
+    "tail: in an unsupported (certain reject) or 2.x/1.x/odd CIMVERSION/"
+    "DTDVERSION/PROTOCOLVERSION value (version-ctl), at the start/end/in "
+    "place of any ID, NAME, CLASSNAME, TYPE, version attribute value or "
+    "VALUE text (ctl-ref).  HTTP level: method tokens POST, "
     "M-POST, GET, HEAD, PUT, PATCH, DELETE, OPTIONS, TRACE, CONNECT, unknown; "
     "HTTP/1.0 and 1.1; request targets; Content-Length exact/missing/"
     "non-numeric/negative/smaller/larger/huge/duplicate; Accept, "
@@ -51,10 +69,21 @@ RULE = (
     "Content-Encoding, Expect, Connection, Transfer-Encoding values "
     "(acceptable, unacceptable, odd characters, latin-1, NUL, obs-fold, "
     "very long, random latin-1 text), header name case, many headers, raw "
-    "header lines.  Every request is followed by a valid indication with a "
+    "header lines; the same control-character sequences inside the value of "
+    "every header the listener reflects when it rejects it (Accept, "
+    "Accept-Charset, Accept-Range, Content-Type, Content-Encoding, "
+    "Content-Length) after an unacceptable/acceptable/empty start, followed "
+    "by blank/TAB (folded value; 1 in 6 without, i.e. a header line ended by "
+    "a bare CR/LF) and the tail.  Classes ctl:<hdr|version|ref>:<bare-CR|"
+    "bare-LF|CRLF|TAB-or-blank|other-control> count what is sent, "
+    "ctl-reflected:CIMErrorDetails[:...] / ctl-reflected:body how often the "
+    "tail comes back in that header / in the body, ctl-not-reflected:"
+    "<status> the rest.  Every request is followed by a valid indication "
+    "with a "
     "fresh marker (survival probe).  listener_responses: valid HTTP, "
     "arbitrary instances (embedded depth <= 1), arbitrary method names, "
-    "parameter names and message ids (responses that echo them go through "
+    "parameter names and message ids, also with control characters as "
+    "character references (responses that echo them go through "
     "the C03 oracle).  sequences: histories of such requests on one "
     "listener mixed with valid indications, bursts of 2..6 simultaneous "
     "valid indications, and up to 4 connections stalled in the middle of a "
@@ -82,7 +111,12 @@ ASSUMPTIONS = [
     "get a specific expectation, all others only the generic oracle (one "
     "well-formed response, 200 with a DTD-valid export response or 4xx/5xx, "
     "no raw CR/LF in header lines, only header names the handler emits, "
-    "listener survives); a request target other than '/', a body shorter "
+    "listener survives); 'syntactically valid' for a response header line "
+    "is RFC 9110 5.5: after splitting the header section on CR LF a field "
+    "value consists of VCHAR, obs-text, SP and HTAB, so besides CR and LF "
+    "no other C0 control character or DEL may be in it (C1 characters such "
+    "as NEL are obs-text and allowed); a request target other than '/', a "
+    "body shorter "
     "than Content-Length, duplicate parameters, case variants of names, a "
     "missing XML declaration, comments/PIs/DOCTYPE, VALUE.NAMEDINSTANCE "
     "or two INSTANCE children get the generic oracle only",
@@ -96,6 +130,12 @@ ASSUMPTIONS = [
     "after three expirations in a process they are lowered so that a run "
     "against a badly broken tree ends",
     "'malformed XML' = rejected by both expat and libxml2 as not well-formed",
+    "a version value that starts with 9, 3.0, 4.1 or 20.0 is unsupported "
+    "whatever follows (also control characters): 4xx/5xx + CIMError if the "
+    "document is well-formed XML (character references to NUL etc. are "
+    "not); values that start with 2.0/1.0/x/nothing and header values with "
+    "control characters only get the generic oracle (where a header line "
+    "ends then depends on the HTTP server's line splitting)",
     "header mismatches asserted: Accept/Content-Type naming only non-XML "
     "media types, Accept-Charset/charset naming only non-UTF-8 charsets, "
     "Content-Encoding other than identity; values whose acceptability "
@@ -141,6 +181,14 @@ SENSITIVITY = [
     "exception escaping _deliver_indication_to_callbacks kills the callback "
     "thread -> accepted-indication-not-delivered + survival:accepted-"
     "indication-not-delivered + listener-thread-died",
+    "_header_value() joins lines with r'\\s*\\n\\s*' and then only removes "
+    "[\\x00-\\x08\\x0b\\x0c\\x0e-\\x1f\\x7f] (a bare CR passes) -> requests + "
+    "sequences/response-header:raw-CR-or-LF-inside-CIMErrorDetails (version "
+    "value with &#13;, header value folded with a bare CR)",
+    "_header_value() keeps LF ([\\x00-\\x09\\x0b-\\x1f\\x7f]) -> response-"
+    "header:raw-CR-or-LF-inside-CIMErrorDetails",
+    "_header_value() only replaces [\\r\\n]+ -> response-header:control-"
+    "character-inside-CIMErrorDetails",
 ]
 
 MARKER = 'VerifMarker'
@@ -493,7 +541,9 @@ def exchange(port, raw):
 # ---------------------------------------------------------------------------
 # HTTP response parsing (independent of http.client)
 
-_STATUS = re.compile(rb'^HTTP/1\.[01] ([0-9]{3})(?: ([^\r\n]*))?$')
+_STATUS = re.compile(rb'^HTTP/1\.[01] ([0-9]{3})(?: ([^\r\n]*))?\Z')
+# not allowed in a field value (RFC 9110 5.5: VCHAR, obs-text, SP, HTAB)
+_FIELD_CTL = re.compile(rb'[\x00-\x08\x0a-\x1f\x7f]')
 _HEADER = re.compile(rb"^([!#$%&'*+\-.^_`|~0-9A-Za-z]+):[ \t]*(.*?)[ \t]*$",
                      re.S)
 EMITTED_HEADERS = {'server', 'date', 'content-type', 'content-length',
@@ -569,6 +619,12 @@ def parse_response(raw, head_request=False):
                 continue
             prev = hm.group(1).decode('latin-1')
             headers.append((prev.lower(), hm.group(2)))
+            cm = _FIELD_CTL.search(hm.group(2))
+            if cm:
+                r.problems.append((
+                    'response-header:control-character-inside-' + prev,
+                    'character %r in header line %r' % (cm.group(0),
+                                                       line[:400])))
             if prev.lower() not in EMITTED_HEADERS:
                 r.problems.append(('response-header:injected-header-' + prev,
                                    '%r' % line[:300]))
@@ -695,6 +751,31 @@ UNICODE_NAMES = ['\u4e2d', 'F\u4e2d', '\u0416', 'x\u0141', '\u00e9',
 NOTINST = ['VALUE', 'VALUE.ARRAY', 'CLASS', 'INSTANCENAME', 'CLASSNAME',
            'VALUE.NAMEDINSTANCE', 'TEXT', 'TWOINST', 'FOO', 'PROPERTY']
 
+# Control characters inside text that the listener reflects (CIMErrorDetails
+# header, echoed names in the response body).  A literal CR/LF/TAB in an XML
+# attribute value is normalized to a blank by the XML parser and a literal
+# CR/LF in a header value ends the header line, so the generator uses what
+# does arrive: character references in XML, folded header values (line break
+# followed by blank/TAB; Python's header parser takes a bare CR and a bare LF
+# as line breaks, too).
+INJECT = 'X-Verif-Injected: 1'
+CTL_ATOMS = ['\r', '\r', '\r', '\r', '\n', '\n', '\r\n', '\r\n', '\n\r',
+             '\t', '\x0b', '\x0c', '\x00', '\x01', '\x08', '\x1b', '\x1c',
+             '\x1f', '\x7f', '\x85', ' ']
+CTL_TAILS = [INJECT, INJECT, INJECT, 'b', '', INJECT + '\r', '€' + INJECT,
+             INJECT + '\n c']
+VERSION_CTL_PREFIX_BAD = ['9', '9', '3.0', '4.1', '20.0']
+VERSION_CTL_PREFIX_MAYBE = ['2.0', '1.0', '', 'x']
+HDR_CTL_BASE = {
+    'Accept': ['text/html,', 'text/html', 'text/xml', ''],
+    'Accept-Charset': ['iso-8859-1,', 'us-ascii', 'utf-8', ''],
+    'Accept-Range': ['bytes', 'none,', ''],
+    'Content-Type': ['text/plain;', 'application/json', 'text/xml;', ''],
+    'Content-Encoding': ['gzip,', 'deflate', 'identity', ''],
+}
+CTL_REF_ATTRS = ['ID', 'NAME', 'NAME', 'CLASSNAME', 'TYPE', 'CIMVERSION',
+                 'DTDVERSION', 'PROTOCOLVERSION', '<VALUE>']
+
 _I = st.integers(0, 10 ** 6)
 
 
@@ -702,13 +783,62 @@ def _pick(draw, seq):
     return seq[draw(_I) % len(seq)]
 
 
+def _g_ctl(draw):
+    "1..3 control-character atoms, mostly a single one"
+    n = draw(st.sampled_from([1, 1, 1, 1, 2, 3]))
+    return ''.join(_pick(draw, CTL_ATOMS) for _ in range(n))
+
+
+def ctl_kind(seq):
+    "class label of a control-character sequence"
+    rest = seq.replace('\r\n', '')
+    if '\r' in rest:
+        return 'bare-CR'
+    if '\n' in rest:
+        return 'bare-LF'
+    if '\r\n' in seq:
+        return 'CRLF'
+    if seq.strip(' ') == '\t' * len(seq.strip(' ')):
+        return 'TAB-or-blank'
+    return 'other-control'
+
+
+def xml_ctl(text):
+    """
+    XML attribute value / character data text in which control characters
+    (and the line break characters NEL, LS) are character references, the only
+    form in which they survive XML parsing.
+    """
+    out = []
+    for ch in text:
+        if ch in '&<>"':
+            out.append({'&': '&amp;', '<': '&lt;', '>': '&gt;',
+                        '"': '&quot;'}[ch])
+        elif ord(ch) < 0x20 or ch in '\x7f\x85\u2028':
+            out.append('&#%d;' % ord(ch))
+        else:
+            out.append(ch)
+    return ''.join(out)
+
+
 def _g_header_defect(draw):
     """
     -> (defect name, [(header, value)...], certainty) certainty: 'ok' value
     acceptable, 'bad' certain mismatch, 'maybe' no specific expectation
     """
-    which = draw(st.integers(0, 15))
+    which = draw(st.integers(0, 18))
     cert = draw(st.integers(0, 9))
+    if which >= 16:
+        # control characters inside the value of a header whose value the
+        # listener reflects when it rejects it; a line break is mostly
+        # followed by a blank/TAB (folded value), otherwise it just ends the
+        # header line
+        name = _pick(draw, sorted(HDR_CTL_BASE))
+        seq = _g_ctl(draw)
+        fold = _pick(draw, [' ', ' ', ' ', '\t', '\t', ''])
+        value = _pick(draw, HDR_CTL_BASE[name]) + seq + fold + \
+            _pick(draw, CTL_TAILS)
+        return ('hdr:%s:ctl' % name, [(name, value)], 'maybe')
     if which >= 14:
         name = draw(st.one_of(
             st.sampled_from(['Accept', 'Accept-Charset', 'Content-Type',
@@ -774,9 +904,13 @@ def _g_header_defect(draw):
 
 def _g_cl_defect(draw):
     "Content-Length mode"
-    k = draw(st.integers(0, 11))
+    k = draw(st.integers(0, 12))
     if k == 0:
         return ('missing',)
+    if k == 12:
+        # control characters in the (reflected) Content-Length value
+        return ('text', _pick(draw, ['12', 'abc', '-1', '']) + _g_ctl(draw) +
+                _pick(draw, [' ', ' ', '\t', '']) + _pick(draw, CTL_TAILS))
     if k == 1:
         return ('text', _pick(draw, ['abc', '', ' ', '1e3', '0x10', '12abc',
                                      '1.5', '\xb2', '٣'.encode(
@@ -802,9 +936,30 @@ def _g_cl_defect(draw):
     return ('list', _pick(draw, [', ', ',']))
 
 
+def _g_ctl_ref(draw, attrs):
+    """
+    Control characters as character references inside an attribute value (or
+    the text of a VALUE element): (attribute, which occurrence, where in the
+    value: 0 start / 1 end / 2 instead of it, control sequence, tail).
+    """
+    return ('ctl-ref', (_pick(draw, attrs), draw(st.integers(0, 5)),
+                        draw(st.integers(0, 2)), _g_ctl(draw),
+                        _pick(draw, CTL_TAILS)))
+
+
 def _g_xml_defect(draw):
     "-> (name, payload)"
-    k = draw(st.integers(0, 19))
+    k = draw(st.integers(0, 22))
+    if k >= 21:
+        # version value with control characters (sent as character
+        # references); an unsupported value is reflected in CIMErrorDetails
+        a = _pick(draw, ['CIMVERSION', 'DTDVERSION', 'PROTOCOLVERSION'])
+        prefix = _pick(draw, VERSION_CTL_PREFIX_BAD if draw(_I) % 4 else
+                       VERSION_CTL_PREFIX_MAYBE)
+        return ('version-ctl', (a, prefix, _g_ctl(draw),
+                                _pick(draw, CTL_TAILS)))
+    if k == 20:
+        return _g_ctl_ref(draw, CTL_REF_ATTRS)
     if k >= 18:
         a = _pick(draw, ['CIMVERSION', 'DTDVERSION', 'PROTOCOLVERSION'])
         return ('version-odd', (a, _pick(draw, VERSION_ODD)))
@@ -874,8 +1029,12 @@ def _g_request(draw, profile='mixed', inst_depth=None):
         # CIM-XML level variety only: everything that yields a 200 response
         n = draw(st.sampled_from([0, 1, 1, 2]))
         for _ in range(n):
-            k = draw(st.integers(0, 5))
-            if k == 0:
+            k = draw(st.integers(0, 6))
+            if k == 6:
+                # message id, method name or parameter name with control
+                # characters (echoed in the response body)
+                rec['xml'].append(_g_ctl_ref(draw, ['ID', 'NAME']))
+            elif k == 0:
                 rec['xml'].append(('method-unknown', draw(st.one_of(
                     st.sampled_from(METHODS_UNKNOWN), S.cim_string(16)))))
             elif k == 1:
@@ -960,11 +1119,19 @@ def build_body(rec, marker):
                 'PROTOCOLVERSION': '1.0'}
     params = [('NewIndication', 'inst')]
     wrap = None
-    info = {'defects': [], 'expect': [], 'interesting': False}
+    info = {'defects': [], 'expect': [], 'interesting': False, 'ctl': []}
     post = []
+    placeholders = []
     for name, payload in rec['xml']:
         info['defects'].append('xml:' + name)
-        if name in ('version-unsupported', 'version-odd', 'version-ok'):
+        if name == 'version-ctl':
+            attr, prefix, seq, tail = payload
+            versions[attr] = 'VERIFCTL%dX' % len(placeholders)
+            placeholders.append((versions[attr], prefix + seq + tail))
+            info['ctl'].append('version:' + ctl_kind(seq))
+            info['expect'].append(
+                'reject' if prefix in VERSION_CTL_PREFIX_BAD else 'any')
+        elif name in ('version-unsupported', 'version-odd', 'version-ok'):
             versions[payload[0]] = payload[1]
             if name == 'version-unsupported':
                 info['expect'].append('reject')
@@ -1065,10 +1232,18 @@ def build_body(rec, marker):
         one = inst.tocimxml().toxml()
         text = text.replace(' VERIFKIND="TWOINST"/>',
                             '>' + one + one + '</EXPPARAMVALUE>')
+    for token, value in placeholders:
+        text = text.replace(token, xml_ctl(value))
     text = '<?xml version="1.0" encoding="utf-8" ?>\n' + text
     # generic tree mutations work on the text
     for name, payload in post:
-        if name == 'tree':
+        if name == 'ctl-ref':
+            attr, which, where, seq, tail = payload
+            text = _apply_ctl_ref(text, attr, which, where,
+                                  xml_ctl(seq + tail))
+            info['ctl'].append('ref:' + ctl_kind(seq))
+            info['expect'].append('any')
+        elif name == 'tree':
             try:
                 text = R.mutate(text, payload)
             except (ValueError, etree.XMLSyntaxError):
@@ -1112,6 +1287,26 @@ def build_body(rec, marker):
             info['expect'].append('same' if payload in (
                 'UTF-8', 'ws', 'standalone', 'crlf') else 'any')
     return body, info
+
+
+def _apply_ctl_ref(text, attr, which, where, insert):
+    """
+    Put the (already escaped) text `insert` into the value of the which-th
+    attribute `attr` of the document text (attr '<VALUE>': into the text of
+    the which-th VALUE element).
+    """
+    if attr == '<VALUE>':
+        pat = re.compile(r'<VALUE>([^<]*)</VALUE>')
+    else:
+        pat = re.compile(r' %s="([^"]*)"' % re.escape(attr))
+    found = list(pat.finditer(text))
+    if not found:
+        return text
+    m = found[which % len(found)]
+    old = m.group(1)
+    new = insert + old if where == 0 else old + insert if where == 1 \
+        else insert
+    return text[:m.start(1)] + new + text[m.end(1):]
 
 
 def _apply_decl(body, how):
@@ -1169,6 +1364,12 @@ def well_formed(body):
     return None
 
 
+def _ctl_part(value):
+    "the control characters (and blanks between them) of a header value"
+    m = re.search(r'[\x00-\x1f\x7f\x85][\x00-\x20\x7f\x85]*', value)
+    return m.group(0).rstrip(' ') if m else ''
+
+
 def build_request(rec, marker):
     """
     -> (raw bytes, info) ; info['expect'] in: 'success', 'reject'
@@ -1186,6 +1387,8 @@ def build_request(rec, marker):
     cert_by_header = {}     # the last setting of a header wins
     for name, hlist, cert in rec['headers']:
         info['defects'].append(name)
+        if name.endswith(':ctl'):
+            info['ctl'].append('hdr:' + ctl_kind(_ctl_part(hlist[0][1])))
         cert_by_header[hlist[0][0].lower() if hlist and hlist[0][0]
                        else name] = cert
         for hn, hv in hlist:
@@ -1228,6 +1431,8 @@ def build_request(rec, marker):
         cl_state = 'other'
     if cl[0] != 'exact':
         info['defects'].append('cl:' + cl[0])
+        if cl[0] == 'text' and _ctl_part(cl[1]):
+            info['ctl'].append('hdr:' + ctl_kind(_ctl_part(cl[1])))
     for v in cl_values:
         headers.append(('Content-Length', v))
     if rec['method'] != 'POST':
@@ -1452,6 +1657,22 @@ def run_request(ctx, fx, rec, classes):
     classes.append('cl:' + rec['cl'][0])
     if info.get('well_formed') is False:
         classes.append('xml:ill-formed')
+    for c in info['ctl']:
+        classes.append('ctl:' + c)
+    if info['ctl'] and resp is not None and resp.status is not None:
+        # how often does the text around the control characters come back
+        # (sanitized) in a header / in the body of the response
+        token = INJECT.encode('ascii')
+        if token in (resp.get('cimerrordetails') or b''):
+            classes.append('ctl-reflected:CIMErrorDetails')
+            for c in info['ctl']:
+                classes.append('ctl-reflected:CIMErrorDetails:' + c)
+        elif token in resp.body:
+            classes.append('ctl-reflected:body')
+        elif resp.status == 200:
+            classes.append('ctl-not-reflected:200')
+        else:
+            classes.append('ctl-not-reflected:%d' % resp.status)
     # delivery of what was accepted
     if resp is not None and resp.status == 200:
         kind, _, _ = export_response(resp.body)
